@@ -320,9 +320,11 @@ impl G {
 
     /// one top-level (or body) statement; may declare names
     fn stmt(&mut self, d: usize, top: bool) -> Vec<Value> {
-        let choice = self.rng.below(if top { 18 } else { 12 });
+        let choice = self.rng.below(if top { 22 } else { 14 });
         match choice {
             11 | 17 => self.fn_value(d),
+            12 | 13 if !top => self.shape(d, false),
+            18..=21 => self.shape(d, true),
             0 => { let n = self.fresh("i"); let e = hide(tint(), self.int_expr(d)); self.declare(&n, tint()); vec![set(&n, e)] }
             1 => { let n = self.fresh("b"); let e = self.bool_expr(d); self.declare(&n, tbool()); vec![set(&n, hide(tbool(), e))] }
             2 => {
@@ -470,6 +472,217 @@ impl G {
         };
         self.declare(&f, ft);
         out
+    }
+
+    fn deref(c: &str) -> Value { json!({"k": "deref", "e": var(c)}) }
+    fn asg(op: &str, l: Value, r: Value) -> Value { json!({"k": "asg", "op": op, "l": l, "r": r}) }
+    fn if1(c: Value, t: Vec<Value>) -> Value { json!({"k": "if", "c": c, "t": block(t), "f": none()}) }
+    /// `mut e` in one of its two surface forms
+    fn mut_int(&mut self, e: Value) -> Value {
+        if self.rng.chance(1, 2) { json!({"k": "mut", "ty": tint(), "e": e, "u": true}) } else { json!({"k": "mut", "ty": tint(), "e": e}) }
+    }
+    /// re-declare `name` with another type: the old entry disappears from the generator's scope
+    fn redeclare(&mut self, name: &str, ty: Value) {
+        self.env.retain(|(n, _)| n != name);
+        self.env.push((name.to_string(), ty));
+    }
+
+    /// structural shapes: the same constructs the suites enumerate, here in random surroundings
+    fn shape(&mut self, d: usize, top: bool) -> Vec<Value> {
+        let ints = self.vars_of(&tint());
+        let cells = self.vars_of(&tmut(tint()));
+        match self.rng.below(if top { 18 } else { 13 }) {
+            // a cell from the untyped / typed form with a literal, named or computed initial value
+            0 => { let c = self.fresh("c"); let e = if self.rng.chance(1, 2) { int([0, 1, 10, -1][self.rng.below(4)]) } else { self.int_expr(1) };
+                   let m = self.mut_int(e); self.declare(&c, tmut(tint())); vec![set(&c, m)] }
+            // a loop whose body ends in `break`, with other exits inside
+            1 => {
+                let k = self.fresh("k");
+                let exit = if self.rng.chance(1, 2) { json!({"k": "break"}) } else { json!({"k": "continue"}) };
+                let (m1, m2) = (mark(self.next_mark()), mark(self.next_mark()));
+                let c = self.bool_expr(1);
+                let mut body = vec![Self::asg("+=", var(&k), int(1)), Self::if1(bin(">", Self::deref(&k), int(2)), vec![json!({"k": "break"})]), m1,
+                                    Self::if1(c, vec![exit])];
+                body.extend(self.body(d, 1));
+                body.push(m2);
+                body.push(json!({"k": "break"}));
+                vec![set(&k, json!({"k": "mut", "ty": tint(), "e": int(0)})), json!({"k": "loop", "b": block(body)}), mark(self.next_mark())]
+            }
+            // for with continue / break decided by the element
+            2 => {
+                let e = self.fresh("e");
+                let it = self.iter_expr(&tint(), d);
+                let (m1, m2) = (mark(self.next_mark()), mark(self.next_mark()));
+                let lim = int([0, 1, 2, 3][self.rng.below(4)]);
+                vec![json!({"k": "for", "n": e, "e": it, "b": block(vec![
+                    Self::if1(bin("<", var(&e), lim.clone()), vec![json!({"k": "continue"})]), m1,
+                    Self::if1(bin(">", var(&e), bin("+", lim, int(1))), vec![json!({"k": "break"})]), m2])})]
+            }
+            // destructuring that permutes existing names / mixes old and new values
+            3 if ints.len() >= 2 => {
+                let a = self.pick(&ints);
+                let b = self.pick(&ints);
+                if a == b { return vec![mark(self.next_mark())]; }
+                let e = match self.rng.below(3) {
+                    0 => tup(vec![var(&b), var(&a)]),
+                    1 => tup(vec![bin("+", var(&a), var(&b)), var(&a)]),
+                    _ => tup(vec![var(&b), bin("*", var(&a), int(2))]),
+                };
+                vec![json!({"k": "destruct", "ns": [a, b], "e": e})]
+            }
+            // struct literal whose initialisers have interacting effects
+            4 if !cells.is_empty() => {
+                let c = self.pick(&cells);
+                let s = self.fresh("s");
+                let ops = ["+=", "*=", "-=", "="];
+                let f1 = Self::asg(ops[self.rng.below(4)], var(&c), int([1, 2, 3][self.rng.below(3)]));
+                let f2 = Self::asg(ops[self.rng.below(4)], var(&c), int([2, 3, 5][self.rng.below(3)]));
+                let names = [["a", "b", "z"], ["z", "a", "b"], ["b", "z", "a"]][self.rng.below(3)];
+                self.declare(&s, tstruct(vec![(names[0], tint()), (names[1], tint()), (names[2], tint())]));
+                vec![set(&s, json!({"k": "struct", "fs": [[names[0], f1], [names[1], f2], [names[2], Self::deref(&c)]]}))]
+            }
+            // counter factory: every call of mk makes its own cell
+            5 => {
+                let mk = self.fresh("mk");
+                let (f1, f2, i) = (self.fresh("g"), self.fresh("g"), self.fresh("i"));
+                let init = if self.rng.chance(1, 2) { int([0, 5][self.rng.below(2)]) } else { self.int_expr(1) };
+                let m = self.mut_int(init);
+                let inner = json!({"k": "fn", "ps": [], "r": tint(), "body": [Self::asg("+=", var("cnt"), int(1)), ret(Self::deref("cnt"))]});
+                let ft = tfn(vec![], tint());
+                let out = vec![
+                    json!({"k": "fndecl", "n": mk, "ps": [], "r": ft.clone(), "body": [set("cnt", m), ret(inner)]}),
+                    set(&f1, call(var(&mk), vec![])), set(&f2, call(var(&mk), vec![])),
+                    set(&i, bin("+", call(var(&f1), vec![]), bin("+", bin("*", int(10), call(var(&f1), vec![])), bin("*", int(100), call(var(&f2), vec![])))))];
+                self.declare(&i, tint());
+                out
+            }
+            // a type test on a scrutinee whose exact static type the checker knows
+            6 => {
+                let sa = tstruct(vec![("a", tint())]);
+                let sab = tstruct(vec![("a", tint()), ("b", tint())]);
+                let saf = tstruct(vec![("a", tmulti(vec![tint(), tfloat()]))]);
+                let t2 = ttup(vec![tint(), tint()]);
+                let t3 = ttup(vec![tint(), tint(), tint()]);
+                let cands: Vec<(Value, Value)> = vec![
+                    (sab.clone(), json!({"k": "struct", "fs": [["a", int(1)], ["b", int(2)]]})),
+                    (sa.clone(), json!({"k": "struct", "fs": [["a", int(1)]]})),
+                    (t2.clone(), tup(vec![int(1), int(2)])), (t3.clone(), tup(vec![int(1), int(2), int(3)])),
+                    (tarr(tint()), arr(vec![int(1)])), (tarr(tmulti(vec![tint(), tfloat()])), arr(vec![int(1), flt(3)])),
+                    (tmulti(vec![sab.clone(), tint()]), json!({"k": "struct", "fs": [["a", int(1)], ["b", int(2)]]})),
+                    (tmulti(vec![t2.clone(), t3.clone()]), tup(vec![int(1), int(2), int(3)]))];
+                let tests = [sa, sab, saf, t2, t3, tarr(tint()), tarr(tmulti(vec![tint(), tfloat()])), tarr(tany()), ttup(vec![tint(), tany()]), tint()];
+                let (vt, ve) = cands[self.rng.below(cands.len())].clone();
+                let test = tests[self.rng.below(tests.len())].clone();
+                let v = self.fresh("v");
+                let (m1, m2) = (mark(self.next_mark()), mark(self.next_mark()));
+                let st = if self.rng.chance(1, 2) {
+                    json!({"k": "ifset", "n": "y", "ty": test, "e": var(&v), "t": block(vec![m1]), "f": block(vec![m2])})
+                } else {
+                    json!({"k": "match", "e": var(&v), "arms": [{"k": "ty", "n": "y", "ty": test, "b": block(vec![m1])}, {"k": "other", "b": block(vec![m2])}]})
+                };
+                vec![set(&v, hide(vt, ve)), st]
+            }
+            // match on an int with value arms, a type arm and a default
+            7 => {
+                let e = self.int_expr(d);
+                let (m1, m2, m3) = (mark(self.next_mark()), mark(self.next_mark()), mark(self.next_mark()));
+                let e2 = self.int_expr(1);
+                vec![json!({"k": "match", "e": e, "arms": [
+                    {"k": "val", "vs": [int(1), e2], "b": block(vec![m1])},
+                    {"k": "val", "vs": [int(2), int(3)], "b": block(vec![m2])},
+                    {"k": "other", "b": block(vec![m3])}]})]
+            }
+            // re-declaring an int name with another type, then using the new type
+            8 if top && !ints.is_empty() && self.in_fn.is_none() => {
+                let a = self.pick(&ints);
+                match self.rng.below(3) {
+                    0 => { let e = bin("+", string("n"), string("m")); self.redeclare(&a, tstr()); vec![set(&a, e)] }
+                    1 => { let e = arr(vec![var(&a), int(2)]); self.redeclare(&a, tarr(tint())); vec![set(&a, hide(tarr(tint()), e))] }
+                    _ => { let e = bin("+", var(&a), int(1)); vec![set(&a, e)] }
+                }
+            }
+            // a block expression that shadows an outer name for its own duration
+            9 if !ints.is_empty() => {
+                let a = self.pick(&ints);
+                let i = self.fresh("i");
+                let m = mark(self.next_mark());
+                self.declare(&i, tint());
+                vec![set(&i, block(vec![set(&a, bin("+", var(&a), int(1))), m, bin("*", var(&a), int(2))])),
+                     set(&self.fresh("i"), var(&a))]
+            }
+            // one cell reached through an array holding it twice
+            10 if !cells.is_empty() => {
+                let c = self.pick(&cells);
+                let cs = self.fresh("cs");
+                let i = self.fresh("i");
+                self.declare(&i, tint());
+                vec![set(&cs, arr(vec![var(&c), var(&c)])),
+                     Self::asg("+=", json!({"k": "at", "e": var(&cs), "i": int(0)}), int(1)),
+                     set(&i, json!({"k": "deref", "e": json!({"k": "at", "e": var(&cs), "i": int(1)})}))]
+            }
+            // an index every variant of a union of tuples has
+            11 => {
+                let tu = self.fresh("tu");
+                let i = self.fresh("i");
+                let ty = tmulti(vec![ttup(vec![tint(), tint()]), ttup(vec![tint(), tint(), tint()])]);
+                let e = if self.rng.chance(1, 2) { tup(vec![int(1), int(2)]) } else { tup(vec![int(1), int(2), int(3)]) };
+                self.declare(&i, tint());
+                vec![set(&tu, hide(ty, e)), set(&i, json!({"k": "tupat", "e": var(&tu), "i": self.rng.below(2)}))]
+            }
+            // early return out of a loop inside a function
+            12 => {
+                let f = self.fresh("f");
+                let i = self.fresh("i");
+                let m = mark(self.next_mark());
+                let arg = self.int_expr(1);
+                self.declare(&i, tint());
+                vec![json!({"k": "fndecl", "n": f, "ps": [p("n", tint())], "r": tint(), "body": [
+                        json!({"k": "for", "n": "e", "e": json!({"k": "iter", "e": arr(vec![int(1), int(2), int(3)])}), "b": block(vec![
+                            m, Self::if1(bin("==", var("e"), var("n")), vec![ret(bin("*", var("e"), int(10)))])])}),
+                        ret(int(-1))]}),
+                     set(&i, bin("+", call(var(&f), vec![arg]), call(var(&f), vec![int(2)])))]
+            }
+            // ---- top level only ----
+            // while-set over a function that eventually answers ()
+            13 => {
+                let (c, nx, s) = (self.fresh("c"), self.fresh("nx"), self.fresh("c"));
+                let m = mark(self.next_mark());
+                let r = tmulti(vec![tint(), tvoid()]);
+                self.declare(&s, tmut(tint()));
+                vec![set(&c, json!({"k": "mut", "ty": tint(), "e": int(0)})), set(&s, json!({"k": "mut", "ty": tint(), "e": int(0)})),
+                     json!({"k": "fndecl", "n": nx, "ps": [], "r": r, "body": [
+                        Self::asg("+=", var(&c), int(1)), Self::if1(bin(">", Self::deref(&c), int(2)), vec![json!({"k": "ret", "e": unit()})]), ret(Self::deref(&c))]}),
+                     json!({"k": "whileset", "n": "y", "ty": tint(), "e": call(var(&nx), vec![]), "b": block(vec![m, Self::asg("+=", var(&s), var("y"))])})]
+            }
+            // a module with a function that uses the module's own name, called through the field
+            14 => {
+                let (m, i) = (self.fresh("m"), self.fresh("i"));
+                let k = self.int_expr(1);
+                self.declare(&i, tint());
+                vec![set(&m, json!({"k": "mod", "body": [set("k", hide(tint(), k)),
+                        json!({"k": "fndecl", "n": "dbl", "ps": [p("v", tint())], "r": tint(), "body": [ret(bin("*", var("v"), var("k")))]})]})),
+                     set(&i, call(json!({"k": "field", "e": var(&m), "n": "dbl"}), vec![json!({"k": "field", "e": var(&m), "n": "k"})]))]
+            }
+            // recursion
+            15 => {
+                let (f, i) = (self.fresh("f"), self.fresh("i"));
+                self.declare(&i, tint());
+                vec![json!({"k": "fndecl", "n": f, "ps": [p("n", tint())], "r": tint(), "body": [
+                        Self::if1(bin("<", var("n"), int(1)), vec![ret(int(1))]),
+                        ret(bin("*", var("n"), call(var(&f), vec![bin("-", var("n"), int(1))])))]}),
+                     set(&i, call(var(&f), vec![int([0, 1, 3, 4][self.rng.below(4)])]))]
+            }
+            // a general reduce with an effectful reducer
+            16 if !cells.is_empty() => {
+                let c = self.pick(&cells);
+                let i = self.fresh("i");
+                let it = self.iter_expr(&tint(), 1);
+                self.declare(&i, tint());
+                vec![set(&i, json!({"k": "reduce", "it": it, "init": Self::asg("+=", var(&c), int(1)), "f": json!({"k": "fn",
+                    "ps": [p("a", tint()), p("b", tint())], "r": tint(), "body": [Self::asg("+=", var(&c), var("b")), ret(bin("-", bin("*", var("a"), int(2)), var("b")))]})}))]
+            }
+            _ => vec![mark(self.next_mark())],
+        }
     }
 
     fn next_mark(&mut self) -> i64 {
@@ -684,7 +897,7 @@ impl G {
         for (n, t) in self.env.clone().iter().rev() {
             if picks.len() >= 4 { break; }
             let k = t["k"].as_str().unwrap();
-            if matches!(k, "int" | "bool" | "array" | "float" | "string" | "multi" | "tuple" | "void") {
+            if matches!(k, "int" | "bool" | "array" | "float" | "string" | "multi" | "tuple" | "void" | "struct") {
                 picks.push(var(n));
             } else if k == "mut" {
                 picks.push(json!({"k": "deref", "e": var(n)}));
